@@ -38,6 +38,10 @@ TRUSTED = [
     "the lexer splits the generated text at the blanks this harness puts between tokens",
 ]
 ASSUMPTIONS = [
+    "texts outside B.2.7 that pymoca's grammar accepts are checked in one class only: a unary sign in front of a "
+    "non-first factor / term (`a / -b / c`), read as belonging to that factor alone (`^` binding tighter), `* /` "
+    "staying left associative; the Lean theorems do not cover this class (correspondence of model parser vs real "
+    "parser and the value oracle do)",
     "expressions are the single-expression fragment: no `a:b:c` ranges, arrays, named arguments, multi-output "
     "parentheses; component references are opaque atoms (dotted names / integer subscripts)",
     "string literals: the value is the text between the delimiters, escape sequences kept verbatim (pymoca documents "
@@ -88,45 +92,57 @@ def atom_tok(t):
     return [t[0], t[1]]
 
 
-def mprint(t, m=0):
-    """Token list of tree `t` in a position that requires Modelica level >= m."""
+def mprint(t, m=0, lenient=False):
+    """Token list of tree `t` in a position that requires Modelica level >= m.
+
+    `lenient`: a signed factor that is the RIGHT operand of `* / + -` (and their element-wise forms) is written
+    without parentheses (`a / -b / c`): outside B.2.7, inside pymoca's grammar; `spec_parse(…, lenient=True)` reads
+    it back."""
+    def P(x, lv):
+        return mprint(x, lv, lenient)
+
+    def right(x, lv):
+        if lenient and x[0] == "pre" and x[1] in ("+", "-") and mlevel(x[2]) >= 7:
+            return [x[1]] + P(x[2], 7)
+        return P(x, lv)
+
     k = t[0]
     if k in ("num", "str", "bool", "ref"):
         return [atom_tok(t)]
     if k == "paren":
-        return ["("] + mprint(t[1], 0) + [")"]
+        return ["("] + P(t[1], 0) + [")"]
     if k == "call":
         out = [["ref", t[1]], "("]
         for i, a in enumerate(t[2]):
             if i:
                 out.append(",")
-            out += mprint(a, 0)
+            out += P(a, 0)
         return out + [")"]
     if k == "bin":
         o = t[1]
         lv = mlevel(t)
         if o == "or":
-            body = mprint(t[2], 1) + [o] + mprint(t[3], 2)
+            body = P(t[2], 1) + [o] + P(t[3], 2)
         elif o == "and":
-            body = mprint(t[2], 2) + [o] + mprint(t[3], 3)
+            body = P(t[2], 2) + [o] + P(t[3], 3)
         elif o in RELOPS:
-            body = mprint(t[2], 5) + [o] + mprint(t[3], 5)
+            body = P(t[2], 5) + [o] + P(t[3], 5)
         elif o in ADDOPS:
-            body = mprint(t[2], 5) + [o] + mprint(t[3], 6)
+            body = P(t[2], 5) + [o] + right(t[3], 6)
         else:
-            body = mprint(t[2], 6) + [o] + mprint(t[3], 7)
+            body = P(t[2], 6) + [o] + right(t[3], 7)
     elif k == "pre":
         lv = mlevel(t)
-        body = [t[1]] + mprint(t[2], 4 if t[1] == "not" else 6)
+        body = [t[1]] + P(t[2], 4 if t[1] == "not" else 6)
     elif k == "pow":
         lv = 7
-        body = mprint(t[2], 8) + [t[1]] + mprint(t[3], 8)
+        body = P(t[2], 8) + [t[1]] + P(t[3], 8)
     elif k == "if":
         lv = 0
         body = []
         for i, (c, b) in enumerate(t[1]):
-            body += ["if" if i == 0 else "elseif"] + mprint(c, 0) + ["then"] + mprint(b, 0)
-        body += ["else"] + mprint(t[2], 0)
+            body += ["if" if i == 0 else "elseif"] + P(c, 0) + ["then"] + P(b, 0)
+        body += ["else"] + P(t[2], 0)
     else:
         raise HarnessError("bad tree node %r" % (t,))
     return body if m <= lv else ["("] + body + [")"]
@@ -226,8 +242,12 @@ class _Reject(Exception):
 
 
 class SpecParser:
-    def __init__(self, toks):
-        self.t, self.i = toks, 0
+    """`lenient`: the extension pymoca's grammar (like most Modelica tools) accepts on top of B.2.7 — a unary `+`/`-` in
+    front of ANY factor, not only in front of the first term.  Its reading: the sign belongs to that factor alone
+    (`^` still binds tighter), so `*` `/` stay left associative: `a / -b / c` is `(a / (-b)) / c`."""
+
+    def __init__(self, toks, lenient=False):
+        self.t, self.i, self.lenient = toks, 0, lenient
 
     def peek(self):
         return self.t[self.i] if self.i < len(self.t) else None
@@ -303,11 +323,17 @@ class SpecParser:
 
     def term(self):
         # factor { mul_operator factor }
-        e = self.factor()
+        e = self.signed_factor()
         while isinstance(self.peek(), str) and self.peek() in MULOPS:
             o = self.take()
-            e = ["bin", o, e, self.factor()]
+            e = ["bin", o, e, self.signed_factor()]
         return e
+
+    def signed_factor(self):
+        if self.lenient and self.peek() in ("+", "-"):
+            o = self.take()
+            return ["pre", o, self.signed_factor()]
+        return self.factor()
 
     def factor(self):
         # primary [ ( "^" | ".^" ) primary ]
@@ -344,9 +370,9 @@ class SpecParser:
         raise _Reject()
 
 
-def spec_parse(toks):
-    """The tree the specification's grammar derives for a token list, or None."""
-    p = SpecParser(toks)
+def spec_parse(toks, lenient=False):
+    """The tree the specification's grammar (or its signed-factor extension) derives for a token list, or None."""
+    p = SpecParser(toks, lenient)
     try:
         e = p.expression()
     except _Reject:
@@ -1001,7 +1027,7 @@ def check_tree(ctx, drv, tree, stream="tree"):
         ctx.disagreement("ast", case, model=canon_expected(ans["expected"]), impl=[st, node])
 
 
-def check_tokens(ctx, drv, toks):
+def check_tokens(ctx, drv, toks, expect=None):
     """Malformed stream: accept/reject and tree of model parser vs real parser on an arbitrary token list."""
     text = text_of(toks)
     case = {"kind": "tokens", "tokens": toks, "text": text}
@@ -1012,10 +1038,18 @@ def check_tokens(ctx, drv, toks):
             ctx.violation("parse raised %s" % node, case, expected="an AST or None", observed=node)
         return
     ref = spec_parse(toks)
+    strict = ref
+    if ref is None:
+        ref = spec_parse(toks, lenient=True)
+        if ref is not None:
+            ctx.count("tokens-in-signed-factor-extension")
+    if expect is not None and ref != expect:
+        raise HarnessError("lenient printer / reader mismatch on %r: %r" % (text, ref))
     if ref is not None:
-        ctx.count("tokens-in-specification-grammar")
+        ctx.count("tokens-in-specification-grammar" if strict is not None else "tokens-lenient-read")
         if st != "ok":
-            ctx.violation("text derivable in the specification's expression grammar rejected as a syntax error", case,
+            ctx.violation("text derivable in the specification's expression grammar (or its signed-factor extension) "
+                          "rejected as a syntax error", case,
                           expected=ref, observed="None")
         else:
             for i, e in enumerate(make_envs()):
@@ -1030,7 +1064,7 @@ def check_tokens(ctx, drv, toks):
     ans = drv.ask({"op": "parse", "tokens": toks})
     if not ans.get("ok"):
         raise HarnessError("model driver rejected %s: %s" % (json.dumps(case)[:300], ans))
-    if ans["spec"] != ref:
+    if ans["spec"] != strict:
         # two transcriptions of the specification's grammar (Lean `specParse`, `spec_parse` here) must agree
         raise HarnessError("reference readers differ on %r: Lean %r, Python %r" % (text, ans["spec"], ref))
     if ans["tree"] is None:
@@ -1165,6 +1199,54 @@ def check_litset(ctx, drv, lits):
                               expected=want, observed=got)
                 break
     check_tree(ctx, drv, tree, "litset")
+
+
+def signed_trees():
+    """A sign in front of a NON-first factor / term, followed by more operators of the same level, no parentheses:
+    `a / -b / c`, `a * -b ^ 2 / c`, `a - +b - c`, `x - b / -c / d` …"""
+    out = []
+    a, b, c, d = (["ref", v] for v in ("x", "y", "z", "u"))
+    for sg in ("-", "+"):
+        for o1 in MULOPS:
+            for o2 in MULOPS:
+                out.append(["bin", o2, ["bin", o1, a, ["pre", sg, b]], c])
+                out.append(["bin", "-", d, ["bin", o2, ["bin", o1, a, ["pre", sg, b]], c]])
+            out.append(["bin", o1, ["bin", o1, a, ["pre", sg, ["pow", "^", b, ["num", "2"]]]], c])
+            out.append(["bin", o1, ["bin", o1, ["bin", o1, a, ["pre", sg, b]], ["pre", sg, c]], d])
+            out.append(["bin", o1, a, ["pre", sg, b]])
+        for o1 in ADDOPS:
+            for o2 in ADDOPS:
+                out.append(["bin", o2, ["bin", o1, a, ["pre", sg, b]], c])
+            out.append(["bin", o1, a, ["bin", "/", ["bin", "/", ["pre", sg, b], c], d]])
+            out.append(["bin", "<", ["bin", o1, a, ["bin", "*", ["pre", sg, b], c]], d])
+    return out
+
+
+def sign_factors(t, rng, prob):
+    """Put a unary sign on random right operands of `* / + -` (factor-level operands only)."""
+    k = t[0]
+    if k == "bin":
+        l, r = sign_factors(t[2], rng, prob), sign_factors(t[3], rng, prob)
+        if t[1] in MULOPS + ADDOPS and mlevel(r) >= 7 and rng.random() < prob:
+            r = ["pre", "-" if rng.random() < 0.8 else "+", r]
+        return ["bin", t[1], l, r]
+    if k == "pre":
+        return ["pre", t[1], sign_factors(t[2], rng, prob)]
+    if k == "pow":
+        return ["pow", t[1], sign_factors(t[2], rng, prob), sign_factors(t[3], rng, prob)]
+    if k == "paren":
+        return ["paren", sign_factors(t[1], rng, prob)]
+    if k == "if":
+        return ["if", [[sign_factors(c, rng, prob), sign_factors(b, rng, prob)] for c, b in t[1]], sign_factors(t[2], rng, prob)]
+    if k == "call":
+        return ["call", t[1], [sign_factors(x, rng, prob) for x in t[2]]]
+    return t
+
+
+def check_signed(ctx, drv, tree):
+    """A tree printed with unparenthesised signed factors: text outside B.2.7 but inside pymoca's grammar."""
+    toks = mprint(tree, 0, lenient=True)
+    check_tokens(ctx, drv, toks, expect=strip_parens(tree))
 
 
 def check_case(ctx, drv, c):
@@ -1576,6 +1658,15 @@ def run(ctx):
                 "0.30000000000000004", "123456789012345678901234567890", "4.9e-324", "1.7976931348623157e308", "2.5e-1"]:
         ctx.count("literal-fixed")
         check_literal(ctx, drv, "num", lex)
+    # signed factors without parentheses (pymoca's extension of the specification's grammar)
+    for t in signed_trees():
+        ctx.count("stream-signed")
+        check_signed(ctx, drv, t)
+    gs = Gen(rng, 4)
+    for i in range(150 if quick else 4000):
+        t = sign_factors(strip_parens(gs.num(rng.randint(2, 4))), rng, 0.5)
+        ctx.count("stream-signed")
+        check_signed(ctx, drv, t)
     # several literals in one parse: strings spelled like numbers / Booleans next to them, both orders
     for lits in ([["str", "1"], ["num", "1"]], [["num", "1"], ["str", "1"]], [["str", "true"], ["bool", True]],
                  [["bool", False], ["str", "false"]], [["num", "2.5"], ["str", "2.5"], ["num", "2.5"]],
